@@ -46,5 +46,11 @@ def replay_fails(pid, payload, impl_lines, model_lines):
     return bool(g(payload, impl_lines, model_lines)) if g else False
 
 
+def property_fails(pid):
+    """optional: property_fails(impl_lines, model_lines) -> bool, for streams that carry an implementation-detail trace (calls made
+    to an external library) next to the property's observable: True when the observable itself differs"""
+    return getattr(MODS[pid], "property_fails", None)
+
+
 def hook(pid, name):
     return getattr(MODS[pid], name)
